@@ -330,7 +330,7 @@ func VerifyPlacementSignatures(cid, msg, sigs) (ok)
     invariant i == entry(i) && sigsLen == entry(sigsLen)
     invariant counter == len(signers) && !isnil(signers) && $i <= len(sigs[i]) && distinctSigners(store, cid, msg, sigs[i], i, signers)
   loop 2
-    invariant counter == entry(counter) && i == entry(i) && signers == entry(signers)
+    invariant i == entry(i) && counter == len(signers) && !isnil(signers) && distinctSigners(store, cid, msg, sigs[i], i, signers)
 @*/
 
 /*@
